@@ -1,13 +1,31 @@
 import AsModel.Spec
+import AsModel.Expand
 /-!
-# C11 — a pattern means the same in every position (verdict half)
+# C11 — a pattern means the same in every position
 
-The specification gives a pattern one meaning, a function of the sub-value it is
-applied to; positions only decide *which* sub-value that is.  The statements below
-are about `frontier`; that the expansion computes `frontier` in every position is
+Two halves.
+
+*Verdict.*  The specification gives a pattern one meaning, a function of the sub-value it
+is applied to; positions only decide *which* sub-value that is (`C11_variant_elem`,
+`C11_tuple_elem`, `C11_slice_elem_exact`, `C11_map_value`, `C11_field`, all statements about
+`frontier`); that the expansion computes `frontier` in every position is
 `Theorems/Refine.lean`.
+
+*Template.*  The code generated for a pattern does not depend on the position either:
+`expandPat` is natural in the value expression it is handed (`expandPat_subst`), so the code
+for `p` in a tuple / variant / slice / set / map-value / struct-field position is, token for
+token, the code for `p` at the root with the root binder `__assert_struct_value` replaced by
+the position's own binder (`C11_template_position_independent` and the per-position
+corollaries).  Every one of these positions hands the pattern a bare binder - a name bound
+by reference by the surrounding destructuring pattern - never an expression.  Positions after
+a field-operation chain hand over the chain applied to the binder (`C11_after_operations`),
+which is where the open findings of this property live.  What rustc then accepts is rustc's
+business (the oracle of the position sweep); the statement here is that it is asked the same
+question in every binder position.
 -/
 namespace AsModel
+
+/-! ### Verdict half -/
 
 /-- Inside `Some(..)` / `Ok(..)` / `Err(..)` / any one-element variant, the verdict on the
 payload is the verdict of the inner pattern on the payload. -/
@@ -16,5 +34,349 @@ theorem C11_variant_elem (P : Prims) (id : Nat) (path : UPath) (p : Pat) (ctor :
     frontier P (.enum id path (.cons none none p .nil)) (.adt ctor [] [w]) =
       appendO (frontier P p w) (some []) := by
   simp [frontier, Items.length, hc, frontierElems]
+
+private theorem appendO_nil {α} (a : Option (List α)) : appendO a (some []) = a := by
+  cases a <;> simp [appendO]
+
+/-- As the first element of a pair `(p, _)`. -/
+theorem C11_tuple_elem (P : Prims) (id j : Nat) (sp : Sp) (p : Pat) (w u : Val) :
+    frontier P (.tuple id sp (.cons none none p (.cons none none (.wild j) .nil))) (.tuple [w, u]) =
+      frontier P p w := by
+  simp [frontier, Items.isSingleParen, Items.length, frontierElems, appendO_nil]
+
+/-- As the only element of a slice pattern `[p]` on a one-element vector. -/
+theorem C11_slice_elem (P : Prims) (id : Nat) (sp : Sp) (p : Pat) (w : Val)
+    (h : p.isSliceRest = false) :
+    frontier P (.slice id sp (.cons none none p .nil)) (.seq [w]) = frontier P p w := by
+  simp [frontier, Val.autoDeref, Items.length, Items.countRest, h, frontierSlice, appendO_nil]
+
+/-- As the value of the only entry of a map pattern `#{ k: p }` on a one-entry map with that key. -/
+theorem C11_map_value (P : Prims) (id : Nat) (sp : Sp) (k : UExpr) (p : Pat) (key w : Val)
+    (hk : P.valEq key (P.key k) = true) :
+    frontier P (.map id sp (.cons none (some k) p .nil) false) (.map [key] [w]) = frontier P p w := by
+  simp [frontier, Val.autoDeref, Items.length, frontierEntries, mapLookup, hk, appendO_nil, appendO]
+  cases frontier P p w <;> simp
+
+/-- As a field of a struct pattern, directly (`f: p`) or after any chain of field operations
+(`f.g: p`, `f.0: p`, `f[i]: p`, `*f: p`, `f.m(): p`): the verdict is the verdict of `p` on the
+sub-value the chain yields. -/
+theorem C11_field (P : Prims) (id : Nat) (path : UPath) (ops : FieldOps) (p : Pat)
+    (ctor : String) (names : List String) (vals : List Val) (w : Val)
+    (hc : P.ctor path ctor = true) (hs : fieldSub P (.adt ctor names vals) ops = some w) :
+    frontier P (.struct id (some path) (.cons (some ops) none p .nil) true) (.adt ctor names vals) =
+      frontier P p w := by
+  simp [frontier, hc, frontierFields, hs, appendO_nil]
+
+/-- The same through a wildcard struct pattern `_ { f: p, .. }`. -/
+theorem C11_wildcard_field (P : Prims) (id : Nat) (ops : FieldOps) (p : Pat) (v w : Val)
+    (hs : fieldSub P v ops = some w) :
+    frontier P (.struct id none (.cons (some ops) none p .nil) true) v = frontier P p w := by
+  simp [frontier, frontierFields, hs, appendO_nil]
+
+/-- As the only element of a set pattern `#(p)` on a one-element collection: the set matches
+exactly when `p` matches the element. -/
+theorem C11_set_elem (P : Prims) (id : Nat) (sp : Sp) (p : Pat) (w : Val) :
+    frontier P (.set id sp (.cons none none p .nil) false) (.seq [w]) = some [] ↔
+      frontier P p w = some [] := by
+  simp only [frontier, Val.elems?, Val.autoDeref, matchRows, Items.length, List.map]
+  cases hf : frontier P p w with
+  | none => simp; decide
+  | some es =>
+    cases es with
+    | nil => simp; decide
+    | cons e es => simp; decide
+
+/-! ### Template half: substitution of the subject binder -/
+
+/-- Replace the root binder `__assert_struct_value` by `r` in a postfix chain. -/
+def Core.subst : Core → Core → Core
+  | .root, _ => .root
+  | .var n, r => if n = Name.rootValue then r else .var n
+  | .paren pre c, r => .paren pre (c.subst r)
+  | .method c sp name args, r => .method (c.subst r) sp name args
+  | .await c sp, r => .await (c.subst r) sp
+  | .named c sp name, r => .named (c.subst r) sp name
+  | .unnamed c sp i, r => .unnamed (c.subst r) sp i
+  | .index c sp e, r => .index (c.subst r) sp e
+
+def VExpr.subst (r : Core) (v : VExpr) : VExpr := ⟨v.pre, v.core.subst r⟩
+
+def Actual.subst (r : Core) : Actual → Actual
+  | .dbg v => .dbg (v.subst r)
+  | .dbgRef v => .dbgRef (v.subst r)
+  | .mapLen v => .mapLen (v.subst r)
+  | .dbgActual => .dbgActual
+  | .missingKey => .missingKey
+
+def Push.subst (r : Core) (p : Push) : Push := { p with actual := p.actual.subst r }
+
+mutual
+def Code.subst (r : Core) : Code → Code
+  | .skip => .skip
+  | .seq cs => .seq (cs.subst r)
+  | .simple sp v e push => .simple sp (v.subst r) e (push.subst r)
+  | .string sp v lit value push => .string sp (v.subst r) lit value (push.subst r)
+  | .cmp sp v op e push => .cmp sp (v.subst r) op e (push.subst r)
+  | .unitVariant sp v path push => .unitVariant sp (v.subst r) path (push.subst r)
+  | .enumTuple sp v path binders body push =>
+    .enumTuple sp (v.subst r) path binders (body.subst r) (push.subst r)
+  | .structNamed sp v path fields rest body push =>
+    .structNamed sp (v.subst r) path fields rest (body.subst r) (push.subst r)
+  | .tuple v binders body => .tuple (v.subst r) binders (body.subst r)
+  | .range sp v e push => .range sp (v.subst r) e (push.subst r)
+  | .slice v parts body push => .slice (v.subst r) parts (body.subst r) (push.subst r)
+  | .regex sp v pattern push => .regex sp (v.subst r) pattern (push.subst r)
+  | .like sp v e push => .like sp (v.subst r) e (push.subst r)
+  | .closure sp v e push => .closure sp (v.subst r) e (push.subst r)
+  | .mapLen sp v n push => .mapLen sp (v.subst r) n (push.subst r)
+  | .mapGet sp v key body push => .mapGet sp (v.subst r) key (body.subst r) (push.subst r)
+  | .set v preds rest node => .set (v.subst r) (preds.subst r) rest node
+def Codes.subst (r : Core) : Codes → Codes
+  | .nil => .nil
+  | .cons c tl => .cons (c.subst r) (tl.subst r)
+end
+
+theorem applyOp_subst (r : Core) (v : VExpr) (op : FieldOp) :
+    (applyOp v op).subst r = applyOp (v.subst r) op := by
+  cases op <;> simp [applyOp, VExpr.subst, Core.subst]
+
+theorem foldl_applyOp_subst (r : Core) : ∀ (ops : List FieldOp) (v : VExpr),
+    (ops.foldl applyOp v).subst r = ops.foldl applyOp (v.subst r)
+  | [], _ => rfl
+  | op :: ops, v => by
+    simp only [List.foldl_cons]
+    rw [foldl_applyOp_subst r ops (applyOp v op), applyOp_subst]
+
+theorem applyOps_subst (r : Core) (v : VExpr) (ops : FieldOps) :
+    (applyOps v ops).subst r = applyOps (v.subst r) ops :=
+  foldl_applyOp_subst r ops.ops v
+
+theorem fieldValue_subst (r : Core) (v : VExpr) (ops : FieldOps) :
+    (fieldValue v ops).subst r = fieldValue (v.subst r) ops := by
+  unfold fieldValue
+  split <;> simp [applyOps_subst]
+
+theorem wildBase_subst (r : Core) (v : VExpr) (f : FieldName) :
+    (wildBase v f).subst r = wildBase (v.subst r) f := by
+  cases f <;> simp [wildBase, VExpr.subst, Core.subst]
+
+/-- A binder other than the root binder is left alone. -/
+theorem binder_subst (r : Core) (n : Name) (h : n ≠ Name.rootValue) :
+    (VExpr.ofCore (.var n)).subst r = VExpr.ofCore (.var n) := by
+  simp [VExpr.ofCore, VExpr.subst, Core.subst, h]
+
+theorem dbgPush_subst (r : Core) (sp : Sp) (id : Nat) (v : VExpr) :
+    (dbgPush sp id v).subst r = dbgPush sp id (v.subst r) := by
+  simp [dbgPush, Push.subst, Actual.subst]
+
+theorem Codes.append_subst (r : Core) : ∀ (a b : Codes),
+    (a.append b).subst r = (a.subst r).append (b.subst r)
+  | .nil, b => by simp [Codes.append, Codes.subst]
+  | .cons c tl, b => by simp [Codes.append, Codes.subst, Codes.append_subst r tl b]
+
+
+mutual
+/-- **Naturality.** The generator is parametric in the value expression it is handed:
+substituting for the root binder in the generated code is generating the code on the
+substituted expression. -/
+theorem expandPat_subst (r : Core) : ∀ (v : VExpr) (p : Pat),
+    (expandPat v p).subst r = expandPat (v.subst r) p
+  | v, .simple .. | v, .range .. | v, .regex .. | v, .like .. | v, .closure .. => by
+    simp [expandPat, Code.subst, dbgPush_subst]
+  | v, .cmp .. => by
+    simp [expandPat, Code.subst, Push.subst, Actual.subst]
+  | v, .string .. => by simp [expandPat, Code.subst, Push.subst, Actual.subst]
+  | v, .wild _ => by simp [expandPat, Code.subst]
+  | v, .enum id path elems => by
+    unfold expandPat; split
+    · simp [Code.subst, dbgPush_subst]
+    · simp [Code.subst, dbgPush_subst, expandElems_subst r elems 0 Name.elem (by intro i; simp)]
+  | v, .tuple id sp elems => by
+    simp [expandPat, Code.subst, expandElems_subst r elems 0 Name.tupleElem (by intro i; simp)]
+  | v, .slice id sp elems => by
+    simp [expandPat, Code.subst, Push.subst, Actual.subst, expandSliceElems_subst r elems 0]
+  | v, .struct id (some path) fields rest => by
+    simp [expandPat, Code.subst, dbgPush_subst, expandFields_subst r fields]
+  | v, .struct id none fields rest => by
+    simp [expandPat, Code.subst, expandWildFields_subst r v fields]
+  | v, .set id sp elems rest => by
+    simp [expandPat, Code.subst, expandSetElems_subst r elems]
+  | v, .map id sp entries rest => by
+    have := expandEntries_subst r v id entries
+    unfold expandPat
+    simp only [Code.subst, Codes.append_subst, this]
+    split <;> simp [Codes.subst, Code.subst, Push.subst, Actual.subst]
+theorem expandElems_subst (r : Core) : ∀ (items : Items) (i : Nat) (mk : Nat → Name)
+    (_ : ∀ i, mk i ≠ Name.rootValue), (expandElems items i mk).subst r = expandElems items i mk
+  | .nil, _, _, _ => by simp [expandElems, Codes.subst]
+  | .cons ops key p tl, i, mk, hmk => by
+    unfold expandElems
+    split
+    · exact expandElems_subst r tl (i + 1) mk hmk
+    · simp only [Codes.subst, expandElems_subst r tl (i + 1) mk hmk]
+      cases ops with
+      | none => simp only [expandPat_subst r _ p, binder_subst r _ (hmk i)]
+      | some o => simp only [expandPat_subst r _ p, fieldValue_subst, binder_subst r _ (hmk i)]
+theorem expandSliceElems_subst (r : Core) : ∀ (items : Items) (i : Nat),
+    (expandSliceElems items i).subst r = expandSliceElems items i
+  | .nil, _ => by simp [expandSliceElems, Codes.subst]
+  | .cons ops key p tl, i => by
+    unfold expandSliceElems
+    split
+    · exact expandSliceElems_subst r tl (i + 1)
+    · simp only [Codes.subst, expandSliceElems_subst r tl (i + 1), expandPat_subst r _ p,
+        binder_subst r (.elem i) (by simp)]
+theorem expandSetElems_subst (r : Core) : ∀ (items : Items),
+    (expandSetElems items).subst r = expandSetElems items
+  | .nil => by simp [expandSetElems, Codes.subst]
+  | .cons ops key p tl => by
+    simp only [expandSetElems, Codes.subst, expandSetElems_subst r tl, expandPat_subst r _ p,
+      binder_subst r .setElem (by simp)]
+theorem expandFields_subst (r : Core) : ∀ (items : Items),
+    (expandFields items).subst r = expandFields items
+  | .nil => by simp [expandFields, Codes.subst]
+  | .cons ops key p tl => by
+    simp only [expandFields, Codes.subst, expandFields_subst r tl]
+    cases ops with
+    | none => simp [Code.subst]
+    | some o =>
+      simp only
+      split
+      · simp only [expandPat_subst r _ p, fieldValue_subst, binder_subst r (.field _) (by simp)]
+      · simp [Code.subst]
+theorem expandWildFields_subst (r : Core) (v : VExpr) : ∀ (items : Items),
+    (expandWildFields v items).subst r = expandWildFields (v.subst r) items
+  | .nil => by simp [expandWildFields, Codes.subst]
+  | .cons ops key p tl => by
+    simp only [expandWildFields, Codes.subst, expandWildFields_subst r v tl]
+    cases ops with
+    | none => simp [Code.subst]
+    | some o =>
+      simp only
+      split
+      · split
+        · simp only [expandPat_subst r _ p, applyOps_subst]
+          simp [VExpr.subst, VExpr.ofCore, wildBase_subst]
+        · simp only [expandPat_subst r _ p]
+          simp [VExpr.subst, wildBase_subst]
+      · simp [Code.subst]
+theorem expandEntries_subst (r : Core) (v : VExpr) (node : Nat) : ∀ (items : Items),
+    (expandEntries v node items).subst r = expandEntries (v.subst r) node items
+  | .nil => by simp [expandEntries, Codes.subst]
+  | .cons ops key p tl => by
+    simp only [expandEntries, Codes.subst, expandEntries_subst r v node tl]
+    cases key with
+    | none => simp [Code.subst]
+    | some k =>
+      simp only [Code.subst, expandPat_subst r _ p, binder_subst r .mapValue (by simp)]
+      simp [Push.subst, Actual.subst]
+end
+
+/-! ### Template half: the property-level statements -/
+
+theorem rootVExpr_subst (c : Core) : rootVExpr.subst c = VExpr.ofCore c := by
+  simp [rootVExpr, VExpr.ofCore, VExpr.subst, Core.subst]
+
+/-- **C11 (template).** The code generated for `p` on a subject bound to the name `n` is the
+code generated for `p` at the root with the root binder replaced by `n`: one template per
+pattern, whatever the position. -/
+theorem C11_template_position_independent (n : Name) (p : Pat) :
+    expandPat (VExpr.ofCore (.var n)) p = (expandPat rootVExpr p).subst (.var n) := by
+  rw [expandPat_subst, rootVExpr_subst]
+
+/-- The root pattern is expanded on the root binder. -/
+theorem C11_root (p : Pat) : (expand p).body = expandPat rootVExpr p := rfl
+
+/-- Tuple elements and enum-variant elements (`Some(..)`, `Ok(..)`, `Err(..)`, `E::V(..)`). -/
+theorem C11_elem_code (key : Option UExpr) (p : Pat) (tl : Items) (i : Nat) (mk : Nat → Name)
+    (h : p.isWild = false) :
+    expandElems (.cons none key p tl) i mk =
+      .cons ((expandPat rootVExpr p).subst (.var (mk i))) (expandElems tl (i + 1) mk) := by
+  rw [← C11_template_position_independent]
+  simp [expandElems, h]
+
+/-- Slice elements. -/
+theorem C11_slice_elem_code (ops : Option FieldOps) (key : Option UExpr) (p : Pat) (tl : Items)
+    (i : Nat) (h1 : p.isSliceRest = false) (h2 : p.isWild = false) :
+    expandSliceElems (.cons ops key p tl) i =
+      .cons ((expandPat rootVExpr p).subst (.var (.elem i))) (expandSliceElems tl (i + 1)) := by
+  rw [← C11_template_position_independent]
+  simp [expandSliceElems, h1, h2]
+
+/-- Set elements (the body of each probe predicate). -/
+theorem C11_set_elem_code (ops : Option FieldOps) (key : Option UExpr) (p : Pat) (tl : Items) :
+    expandSetElems (.cons ops key p tl) =
+      .cons ((expandPat rootVExpr p).subst (.var .setElem)) (expandSetElems tl) := by
+  rw [← C11_template_position_independent]
+  simp [expandSetElems]
+
+/-- Map values. -/
+theorem C11_map_value_code (v : VExpr) (node : Nat) (ops : Option FieldOps) (k : UExpr) (p : Pat)
+    (tl : Items) :
+    expandEntries v node (.cons ops (some k) p tl) =
+      .cons (.mapGet k.sp v k ((expandPat rootVExpr p).subst (.var .mapValue))
+        ⟨k.sp, node, .missingKey, .keyPresent k.text⟩) (expandEntries v node tl) := by
+  rw [← C11_template_position_independent]
+  simp [expandEntries]
+
+/-- Fields of a named struct pattern (also of a struct-like enum variant) written without
+further operations. -/
+theorem C11_struct_field_code (ops : FieldOps) (key : Option UExpr) (p : Pat) (tl : Items)
+    (f : FieldName) (hf : ops.rootFieldName? = some f) (ht : ops.tailOps? = some none) :
+    expandFields (.cons (some ops) key p tl) =
+      .cons ((expandPat rootVExpr p).subst (.var (.field f))) (expandFields tl) := by
+  rw [← C11_template_position_independent]
+  simp [expandFields, hf, fieldValue, ht]
+
+/-- A bare binder: a name, nothing spliced before or after it. -/
+def VExpr.isBinder : VExpr → Bool
+  | ⟨[], .var _⟩ => true
+  | _ => false
+
+theorem applyOp_not_binder (v : VExpr) (op : FieldOp) : (applyOp v op).isBinder = false := by
+  cases op <;> simp [applyOp, VExpr.isBinder, List.replicate_succ]
+
+theorem foldl_applyOp_not_binder : ∀ (ops : List FieldOp) (v : VExpr), ops ≠ [] →
+    (ops.foldl applyOp v).isBinder = false
+  | [], _, h => absurd rfl h
+  | [op], v, _ => applyOp_not_binder v op
+  | op :: op' :: rest, v, _ => by
+    simp only [List.foldl_cons]
+    exact foldl_applyOp_not_binder (op' :: rest) (applyOp v op) (by simp)
+
+/-- **C11 (where positions differ).** After a chain of field operations the pattern is not
+handed a binder but the chain spliced onto one - a place or a temporary of the operation's
+result type, not a reference to it.  This is the one way in which a position changes what a
+pattern is applied to, and all open findings of C11 (`accept:place/..`, `accept:temporary/..`)
+are instances of it. -/
+theorem C11_after_operations (ops : FieldOps) (key : Option UExpr) (p : Pat) (tl : Items)
+    (f : FieldName) (t : FieldOps) (hf : ops.rootFieldName? = some f)
+    (ht : ops.tailOps? = some (some t)) (hne : t.ops ≠ []) :
+    expandFields (.cons (some ops) key p tl) =
+        .cons (expandPat (applyOps (VExpr.ofCore (.var (.field f))) t) p) (expandFields tl) ∧
+      (applyOps (VExpr.ofCore (.var (.field f))) t).isBinder = false := by
+  refine ⟨by simp [expandFields, hf, fieldValue, ht], ?_⟩
+  exact foldl_applyOp_not_binder t.ops _ hne
+
+/-- Fields of a wildcard struct pattern `_ { f: p, .. }` written without further operations are
+handed `&(v).f`: a reference taken explicitly, to the same effect as a binder. -/
+theorem C11_wildcard_field_code (v : VExpr) (ops : FieldOps) (key : Option UExpr) (p : Pat)
+    (tl : Items) (f : FieldName) (hf : ops.rootFieldName? = some f) (ht : ops.tailOps? = some none) :
+    expandWildFields v (.cons (some ops) key p tl) =
+      .cons (expandPat ⟨[Pre.amp Sp.callSite], wildBase v f⟩ p) (expandWildFields v tl) := by
+  simp [expandWildFields, hf, ht]
+
+/-- Non-vacuity: the hypotheses of `C11_struct_field_code` / `C11_after_operations` are met by
+`name: p` and by `name.len(): p`. -/
+example : (FieldOps.mk [.named ⟨"name", default⟩ default] default).rootFieldName? =
+      some (.ident ⟨"name", default⟩) ∧
+    (FieldOps.mk [.named ⟨"name", default⟩ default] default).tailOps? = some none := by
+  decide
+
+example : (FieldOps.mk [.named ⟨"name", default⟩ default, .method ⟨"len", default⟩ default []] default).rootFieldName? =
+      some (.ident ⟨"name", default⟩) ∧
+    (FieldOps.mk [.named ⟨"name", default⟩ default, .method ⟨"len", default⟩ default []] default).tailOps? =
+      some (some ⟨[.method ⟨"len", default⟩ default []], default⟩) := by
+  decide
 
 end AsModel
